@@ -42,6 +42,14 @@ MUTATIONS = [
      "            idx = start_map - 1\n            x = start\n            for juska in self._rmap[start_map:]:"),
     # all forms agree and the result stays inside the range: only the comparison with the model's slice sees it
     ("get-values-last-row-dropped", TA, "        data = []\n        for row in self.traverse(start=y, end=t):", "        data = []\n        for row in self.traverse(start=y, end=t - 1 if t else t):"),
+    # writers compared with the model on the span-aware abstraction
+    ("set-span-str-area-swapped", TA, "        if len(digits) == 4:\n            x, y, z, t = digits\n        else:\n            x, y = digits\n            z, t = digits\n        start = x, y",
+     "        if len(digits) == 4:\n            x, y, z, t = digits\n            if isinstance(area, str):\n                x, y, z, t = y, x, t, z\n        else:\n            x, y = digits\n            z, t = digits\n        start = x, y"),
+    ("del-span-uses-end-cell", TA, "            x, y, _z, _t = digits", "            _x, _y, x, y = digits"),
+    ("transpose-puts-block-at-y-x", TA, "            self.set_cells(filtered_data, (x, y, x + h - 1, y + w - 1))", "            self.set_cells(filtered_data, (y, x, y + h - 1, x + w - 1))"),
+    # a writer on a row stored in a repeated run must change that row only (DESIGN C, C01's catalogue): seen because writers run on run-length tables
+    ("set-cell-writes-whole-run", TA, "            repeated = row.repeated or 1\n            if repeated > 1:\n                row = row.clone\n                row.repeated = None\n                cell_back = row.set_cell(x, cell, clone=clone)",
+     "            repeated = row.repeated or 1\n            if repeated > 99:\n                row = row.clone\n                row.repeated = None\n                cell_back = row.set_cell(x, cell, clone=clone)"),
     ("get-columns-f24-again", TA, "            x, _y, z, _t = self._translate_column_coordinates(coord)", "            x, _y, _z, z = self._translate_column_coordinates(coord)"),
 ]
 REWRITES = [
